@@ -88,6 +88,8 @@ class Check(CheckBase):
         for k in range(4):
             cs.append({"label": "vb/non-numeric-token-%d" % k, "par": (False, "xmaxymin", "slice"), "vb": "bad%d" % k})
         cs.append({"label": "vb/5-atoms", "par": None, "vb": 5})
+        # every case again after two earlier calls in the same interpreter (no state may leak between calls)
+        cs += [dict(c, label=c["label"] + "/after-earlier-calls", prior=True) for c in list(cs)]
         return cs
 
     def config(self, tier, case):
@@ -131,6 +133,9 @@ class Check(CheckBase):
                 els += sep(run, "par_sep1", 2) + word(run, mos, "w_mos")
             els += sep(run, "par_trail", 1, (32, 9))
             p_a_r = SymStr(els)
+        if case.get("prior"):
+            pu.vb_scale("0 0 10 20", "xMinYMin slice", 100, 100)
+            pu.vb_scale("-5,-5,40,10", "defer xMaxYMax meet", 7, 70)
         try:
             res = pu.vb_scale(v_b, p_a_r, nums["doc_w"], nums["doc_h"])
         except Exception as ex:
@@ -224,6 +229,9 @@ class Check(CheckBase):
             mos = mos or "meet"
         # exact arithmetic: give the real code Fractions for the document size and patch float() of the tokens by
         # using numbers that binary64 represents exactly when possible; otherwise compare with a relative tolerance
+        if case.get("prior"):
+            pu.vb_scale("0 0 10 20", "xMinYMin slice", 100, 100)
+            pu.vb_scale("-5,-5,40,10", "defer xMaxYMax meet", 7, 70)
         try:
             res = pu.vb_scale(v_b, p_a_r, float(v["doc_w"]), float(v["doc_h"]))
         except Exception as ex:
